@@ -11,8 +11,11 @@ use crate::sim::{run_sim, vnow, Handle, RunOutput, SchedKind};
 use crate::simnet::{NetKnobs, SimNet};
 use futures::StreamExt;
 use litep2p::{
-    protocol::libp2p::kademlia::{ConfigBuilder as KadBuilder, KademliaEvent, KademliaHandle, Quorum, Record, RecordKey, RoutingTableUpdateMode},
-    Litep2p, Litep2pEvent, PeerId,
+    codec::ProtocolCodec,
+    protocol::libp2p::kademlia::{verif::KademliaMessage, ConfigBuilder as KadBuilder, KademliaEvent, KademliaHandle, Quorum, Record, RecordKey, RoutingTableUpdateMode},
+    protocol::{TransportEvent, TransportService, UserProtocol},
+    substream::Substream,
+    Litep2p, Litep2pEvent, PeerId, ProtocolName,
 };
 use multiaddr::Multiaddr;
 use serde_json::{json, Value};
@@ -33,6 +36,8 @@ enum K {
     Partial { qid: String },
     IncomingRecord { key: String, value: Vec<u8> },
     IncomingProvider { key: String, provider: usize },
+    /// the rogue Kademlia speaker read a request of `len` bytes from node `from`
+    RogueGot { from: usize, len: usize },
     Killed,
     Ended,
 }
@@ -151,6 +156,62 @@ fn gen_quorum(rng: &mut Rng) -> Value {
     }
 }
 
+/// A peer that speaks the Kademlia protocol name but misbehaves after reading a request: stays
+/// silent, answers garbage / an empty frame / a well-formed message of the wrong type, or closes.
+struct RogueKad {
+    behaviour: String,
+    handle: Handle,
+    log: Log,
+    seed: u64,
+    total: usize,
+    me: usize,
+}
+
+#[async_trait::async_trait]
+impl UserProtocol for RogueKad {
+    fn protocol(&self) -> ProtocolName {
+        ProtocolName::from("/ipfs/kad/1.0.0")
+    }
+    fn codec(&self) -> ProtocolCodec {
+        ProtocolCodec::UnsignedVarint(Some(70 * 1024))
+    }
+    async fn run(self: Box<Self>, mut service: TransportService) -> litep2p::Result<()> {
+        let mut held: Vec<Substream> = Vec::new();
+        while let Some(ev) = service.next().await {
+            if let TransportEvent::SubstreamOpened { mut substream, peer, .. } = ev {
+                let got = tokio::time::timeout(Duration::from_secs(2), substream.next()).await;
+                if let Ok(Some(Ok(m))) = &got {
+                    let from = (1..=self.total).find(|j| peer_id(self.seed, *j) == peer).unwrap_or(0);
+                    push(&self.log, &self.handle, self.me, K::RogueGot { from, len: m.len() });
+                }
+                self.handle.probe(&format!("rogue-kad:{}", self.behaviour));
+                match self.behaviour.as_str() {
+                    "silent" => held.push(substream),
+                    "close" => drop(substream),
+                    "garbage" => {
+                        let _ = substream.send_framed(bytes::Bytes::from_static(&[0xff, 0xfe, 0x00, 0x13, 0x37, 0xff, 0xff, 0xff, 0x01])).await;
+                        held.push(substream);
+                    }
+                    "empty" => {
+                        let _ = substream.send_framed(bytes::Bytes::new()).await;
+                        held.push(substream);
+                    }
+                    _ => {
+                        // a well-formed message nobody asked for
+                        let m = KademliaMessage::put_value(Record::new(b"unasked".to_vec(), b"x".to_vec()));
+                        let _ = substream.send_framed(m).await;
+                        held.push(substream);
+                    }
+                }
+                if held.len() > 64 {
+                    held.remove(0);
+                }
+            }
+        }
+        Ok(())
+    }
+}
+
 impl Prop for C16 {
     fn id(&self) -> &'static str {
         "C16"
@@ -166,7 +227,7 @@ impl Prop for C16 {
     fn describe(&self) -> Describe {
         Describe {
             level: "exploration",
-            rule: "each case = one seeded run of 3-6 complete litep2p nodes running Kademlia on SimNet (line / star / clique bootstrap, replication factor knob) plus ghost peers (refusing address, black-hole address, address no transport can dial, no address): materialised user operations (find_node, put_record with each quorum, put_record_to_peers incl. ghosts, get_record, start_providing, get_providers), fault plan, scheduler kind and knobs; non-trivial = scheduler had >=1 choice point; distinct = distinct trace hash".into(),
+            rule: "each case = one seeded run of 3-6 complete litep2p nodes running Kademlia on SimNet (line / star / clique bootstrap, replication factor knob) plus ghost peers (refusing address, black-hole address, address no transport can dial, no address): in a third of the runs ghost n+1 is a live peer that speaks the Kademlia protocol name but, after reading a request, stays silent / closes / answers garbage, an empty frame or a well-formed message of the wrong type; materialised user operations (find_node, put_record with each quorum, put_record_to_peers incl. ghosts, get_record, start_providing, get_providers), fault plan (resets, half-closes, byte-offset cuts, partitions, refused / black-holed / slow connects, node kill, process stalls), scheduler kind and knobs; non-trivial = scheduler had >=1 choice point; distinct = distinct trace hash".into(),
             real: vec!["Litep2p", "TransportManager", "TcpTransport", "Noise", "yamux", "Kademlia (event loop, QueryEngine, RoutingTable, MemoryStore, QueryExecutor)", "KademliaHandle", "TransportService"],
             stub: vec!["socket layer (SimNet)", "clock", "task scheduler (seeded)", "HashMap seeds"],
             assumptions: vec![
@@ -234,6 +295,11 @@ impl Prop for C16 {
             }
         }
         faults.extend(nodesim::gen_freeze_faults(seed, n, last + 5000));
+        // ghost n+1 is, in a third of the runs, a live peer speaking the Kademlia protocol badly
+        let rogue = {
+            let mut r = Rng::fork(seed, "c16-rogue");
+            if r.chance(1, 3) { json!(*r.pick(&["silent", "close", "garbage", "empty", "wrong_type"])) } else { Value::Null }
+        };
         let mut knobs = gen_node_knobs(&mut rng);
         if rng.chance(1, 6) {
             knobs["max_out"] = json!(rng.range(1, 2));
@@ -245,6 +311,7 @@ impl Prop for C16 {
             "nodes": n,
             "topology": topology,
             "replication": *rng.pick(&[2u64, 3, 20]),
+            "rogue": rogue,
             "sched": SchedKind::gen(&mut rng, 6000),
             "net": NetKnobs::gen(&mut rng),
             "node_knobs": knobs,
@@ -321,6 +388,20 @@ impl Prop for C16 {
                     }
                 });
                 drv.push(Some(spawn_driver(&handle, log.clone(), seed, total, i, kh)));
+            }
+            if let Some(behaviour) = case["rogue"].as_str() {
+                let g = n + 1;
+                node::CURRENT_NODE.with(|c| c.set(g));
+                let cfg = base_config(&handle, seed, g, &knobs).with_user_protocol(Box::new(RogueKad { behaviour: behaviour.to_string(), handle: handle.clone(), log: log.clone(), seed, total, me: g })).build();
+                match Litep2p::new(cfg) {
+                    Ok(mut l) => {
+                        handle.spawn(g, "rogue-event-loop", async move { while l.next_event().await.is_some() {} });
+                    }
+                    Err(e) => {
+                        handle.violation("harness:litep2p-new", format!("rogue: {e:?}"));
+                        return Box::new(|| {});
+                    }
+                }
             }
             node::CURRENT_NODE.with(|c| c.set(0));
             net.host_down_opt(node_ip(n + 2), true, false);
@@ -459,7 +540,12 @@ fn check(log: &[Rec], dead: &BTreeMap<usize, bool>, n: usize, killing: bool, h: 
             }
             match *kind {
                 "put_record" | "put_record_to_peers" => {
-                    let receivers: Vec<usize> = (1..=n).filter(|j| *j != i && log.iter().any(|x| x.node == *j && matches!(&x.k, K::IncomingRecord { key: k2, value: v2 } if k2 == key && v2 == value))).collect();
+                    let mut receivers: Vec<usize> = (1..=n).filter(|j| *j != i && log.iter().any(|x| x.node == *j && matches!(&x.k, K::IncomingRecord { key: k2, value: v2 } if k2 == key && v2 == value))).collect();
+                    // the rogue speaker was sent the record if it read a request at least as long as
+                    // the value from this node after the operation was issued
+                    if log.iter().any(|x| x.node == n + 1 && x.t >= r.t && matches!(&x.k, K::RogueGot { from, len } if *from == i && *len >= value.len())) {
+                        receivers.push(n + 1);
+                    }
                     let required = if *kind == "put_record_to_peers" {
                         let len = peers.len();
                         match quorum.trim_matches('"') {
@@ -476,7 +562,10 @@ fn check(log: &[Rec], dead: &BTreeMap<usize, bool>, n: usize, killing: bool, h: 
                     h.probe("put-success-verified");
                 }
                 "start_providing" => {
-                    let receivers: Vec<usize> = (1..=n).filter(|j| *j != i && log.iter().any(|x| x.node == *j && matches!(&x.k, K::IncomingProvider { key: k2, provider } if k2 == key && *provider == i))).collect();
+                    let mut receivers: Vec<usize> = (1..=n).filter(|j| *j != i && log.iter().any(|x| x.node == *j && matches!(&x.k, K::IncomingProvider { key: k2, provider } if k2 == key && *provider == i))).collect();
+                    if log.iter().any(|x| x.node == n + 1 && x.t >= r.t && matches!(&x.k, K::RogueGot { from, .. } if *from == i)) {
+                        receivers.push(n + 1);
+                    }
                     if receivers.is_empty() {
                         return Some(("c16:provide-success-without-quorum".into(), format!("node {i}: start_providing({kd}) {qid} quorum {quorum} reported AddProviderSuccess but no node ever received the provider record")));
                     }
